@@ -495,9 +495,14 @@ class History:
         head = before_cs.current_chain_hash
         if head not in world.chain.blocks or len(self.active_raws()) < 2:
             return
-        story = rng.choice(["child-before-parent-answer", "unrequested-while-round-open", "announced-then-unrequested",
-                            "late-answer-after-child", "answers-lower-block-refusal", "same-header-other-body",
-                            "altered-copy-while-holding-answers", "answers-refusal-same-answers-again"])
+        kinds = ["child-before-parent-answer", "unrequested-while-round-open", "announced-then-unrequested",
+                 "late-answer-after-child", "answers-lower-block-refusal", "same-header-other-body",
+                 "altered-copy-while-holding-answers", "answers-refusal-same-answers-again"]
+        # (in turn, from a random start: every kind of story occurs in every lane that runs eight or more of them)
+        if "story_turn" not in c:
+            c["story_turn"] = rng.randrange(len(kinds))
+        c["story_turn"] += 1
+        story = kinds[c["story_turn"] % len(kinds)]
         c["download_route_stories"] = c.get("download_route_stories", 0) + 1
         c["story:" + story] = c.get("story:" + story, 0) + 1
         ms = self.wire.ms
@@ -851,6 +856,11 @@ class History:
         os.remove(self.path)
 
 
+STORY_KINDS = ["child-before-parent-answer", "unrequested-while-round-open", "announced-then-unrequested", "late-answer-after-child",
+               "answers-lower-block-refusal", "same-header-other-body", "altered-copy-while-holding-answers",
+               "answers-refusal-same-answers-again"]
+
+
 def route_histories(rng, nhist, ndeliv, classes, tag, story_share=0.6):
     """for the checks of other properties: histories of a real node (relay and download route, with the real store) in which
     most events are download-route stories built from THEIR classes of rule-breaking blocks; returns the monitor"""
@@ -860,6 +870,12 @@ def route_histories(rng, nhist, ndeliv, classes, tag, story_share=0.6):
     for j in range(nhist):
         h = History(mon, rng, "%s-%d" % (tag, j))
         h.run(ndeliv, cl, story_share=story_share)
+    # (every kind at least twice: a lane that came short runs further histories)
+    extra = 0
+    while min([mon.c.get("story:" + k, 0) for k in STORY_KINDS]) < 2 and extra < 6:
+        extra += 1
+        h = History(mon, rng, "%s-x%d" % (tag, extra))
+        h.run(ndeliv, cl, story_share=0.9)
     return mon
 
 
